@@ -43,15 +43,15 @@ const (
 
 // Control is the reference record of a control value.
 type Control struct {
-	Kind   string // paging behera vchu-must vchu-warn managedsait ms-notif ms-showdel ms-ttl string
-	OID    string
-	Crit   bool
-	Size   uint32
-	Cookie []byte
-	Expire int64 // behera / vchu-warn; -1 unset
-	Grace  int64 // behera; -1 unset
-	Err    int64 // behera; -1 unset
-	Value  string
+	Kind    string // paging behera vchu-must vchu-warn managedsait ms-notif ms-showdel ms-ttl string
+	OID     string
+	Crit    bool
+	Size    uint32
+	Cookie  []byte
+	Expire  int64 // behera / vchu-warn; -1 unset
+	Grace   int64 // behera; -1 unset
+	Err     int64 // behera; -1 unset
+	Value   string
 	NoValue bool // paging/behera/vchu-warn encoded without value
 }
 
@@ -91,7 +91,7 @@ func (c Control) Node() *Node {
 	case "paging":
 		if !c.NoValue {
 			inner := Seq(Int(int64(c.Size)), Prim(Universal, TagOctet, c.Cookie))
-			n.Kids = append(n.Kids, Prim(Universal, TagOctet, inner.Bytes()))
+			n.Kids = append(n.Kids, Wrap(inner))
 		}
 	case "behera":
 		if !c.NoValue {
@@ -104,7 +104,7 @@ func (c Control) Node() *Node {
 			default:
 				inner = Seq(Prim(Context, 1, EncInt(c.Err)))
 			}
-			n.Kids = append(n.Kids, Prim(Universal, TagOctet, inner.Bytes()))
+			n.Kids = append(n.Kids, Wrap(inner))
 		}
 	case "vchu-warn":
 		if !c.NoValue {
@@ -181,7 +181,7 @@ func (r *Req) OpNode() *Node {
 		for _, a := range r.Attrs {
 			attrs.Kids = append(attrs.Kids, Octet(a))
 		}
-		return Cons(Application, AppSearchRequest, Octet(r.DN), Enum(r.Scope), Enum(r.Deref), Int(r.Size), Int(r.Time), Bool(r.TypesOnly), RawNode(r.FilterBER), attrs)
+		return Cons(Application, AppSearchRequest, Octet(r.DN), Enum(r.Scope), Enum(r.Deref), Int(r.Size), Int(r.Time), Bool(r.TypesOnly), filterNode(r.FilterBER), attrs)
 	case "modify":
 		chs := Seq()
 		for _, c := range r.Changes {
@@ -421,4 +421,12 @@ func ParseControl(c *Node) (Control, error) {
 		}
 	}
 	return out, nil
+}
+
+// filterNode parses pre-encoded filter bytes into a tree (so that mutations reach inside); falls back to raw bytes.
+func filterNode(b []byte) *Node {
+	if n, rest, err := ParseOne(b); err == nil && len(rest) == 0 {
+		return n
+	}
+	return RawNode(b)
 }
